@@ -722,10 +722,12 @@ impl<'a> Model<'a> {
                         new_columns.push(new_column);
                     }
                 } else {
-                    // Case E
+                    // Case E (nothing is left if the range starts at the first deleted column)
                     let mut new_column = col.clone();
                     new_column.max = column_start - 1;
-                    new_columns.push(new_column);
+                    if new_column.min <= new_column.max {
+                        new_columns.push(new_column);
+                    }
                 }
             } else {
                 // Case F
